@@ -30,6 +30,30 @@ def Stream.enroll (optsRow : Row) : M Stream Unit := do
     Stream.stream_options optsRow
     modify fun s => { s with enrolled := true }
 
+/-- `GraphStream.graph` (pyjelly/serialize/streams.py:244) -/
+def GraphStream.graph__loop (enc encG : Term → M TermEnc (List Row × WTerm)) (exc : PyErr) (frame_from_bounds : M Flow (Option Frame)) : List (List Term) → M (Stream × List Frame) Unit
+  | [] => pure ()
+  | triple :: rest__ => do
+    let t8__ ← onStream (TripleStream.triple enc encG exc frame_from_bounds triple)
+    if t8__.isSome then
+      yieldFrame (← liftE (optGet t8__))
+    GraphStream.graph__loop enc encG exc frame_from_bounds rest__
+
+def GraphStream.graph (enc encG : Term → M TermEnc (List Row × WTerm)) (exc : PyErr) (frame_from_bounds : M Flow (Option Frame)) (graph_id : Term) (graph : List (List Term)) : M (Stream × List Frame) Unit := do
+  let mut graph_start : PStmt := {}
+  onStream (zoom (·.enc.te) (fun s v => { s with enc := { s.enc with te := v } }) TermEncoder.start_row)
+  let t1__ ← onStream (zoom (·.enc.te) (fun s v => { s with enc := { s.enc with te := v } }) (encG graph_id))
+  let mut graph_rows : List Row := t1__.1
+  graph_start := { graph_start with g := some t1__.2 }
+  onStream (zoom (·.enc.te) (fun s v => { s with enc := { s.enc with te := v } }) TermEncoder.end_row)
+  graph_rows := graph_rows ++ [Row.graphStart graph_start.g]
+  onStream (zoom (·.flow) (fun s v => { s with flow := v }) (flowExtend graph_rows))
+  GraphStream.graph__loop enc encG exc frame_from_bounds graph
+  onStream (zoom (·.flow) (fun s v => { s with flow := v }) (flowExtend [Row.graphEnd]))
+  let t9__ ← onStream (zoom (·.flow) (fun s v => { s with flow := v }) frame_from_bounds)
+  if t9__.isSome then
+    yieldFrame (← liftE (optGet t9__))
+
 /-- `Stream.namespace_declaration` (pyjelly/serialize/streams.py:111) -/
 def Stream.namespace_declaration (name : String) (iri : String) : M Stream Unit := do
   let rows ← zoom (·.enc.te) (fun s v => { s with enc := { s.enc with te := v } }) (encode_namespace_declaration name iri)
